@@ -96,3 +96,48 @@ Theorem C17_checksum_verifies (c0 K : N) : (K < 2 ^ 30)%N ->
   fold_left pm_step (checksum_symbols p) c0 = K.
 Proof. exact (checksum_verifies c0 K). Qed.
 Print Assumptions C17_checksum_verifies.
+
+(* ---- regrouping layer and whole segwit address strings ---- *)
+From Goat Require Import Proofs.Regroup.
+(* 8-bit -> 5-bit regrouping with padding followed by 5-bit -> 8-bit without padding (bech32.ConvertBits both
+   ways) returns the byte string, for byte strings of any length; the one-byte step of the pair of streaming
+   automata is checked exhaustively over its finite domain, the statement for all lengths is by induction *)
+Theorem C17_regroup_round_trip p :
+  Forall (fun v => (v < 256)%N) p ->
+  conv58 (conv85 p 0 0) 0 0 = Some p /\ Forall (fun g => (g < 32)%N) (conv85 p 0 0).
+Proof. exact (regroup_round_trip p). Qed.
+Print Assumptions C17_regroup_round_trip.
+
+(* the string btcutil builds for (witness version, program) decodes back to exactly that pair under the
+   conditions decodeSegWitAddress imposes *)
+Theorem C17_segwit_round_trip hrp ver p v :
+  hrp_ok hrp -> (ver <= 16)%N -> Forall (fun x => (x < 256)%N) p ->
+  (2 <= length p <= 40)%nat ->
+  (ver = 0%N -> (length p = 20 \/ length p = 32)%nat /\ v = V0) ->
+  (ver = 1%N -> v = VM) ->
+  (length hrp + 1 + S (length (conv85 p 0 0)) + 6 <= 90)%nat ->
+  decode_segwit (bech32_encode hrp (ver :: conv85 p 0 0) v) = Some (ver, p).
+Proof. exact (segwit_round_trip hrp ver p v). Qed.
+Print Assumptions C17_segwit_round_trip.
+
+(* every standard segwit address (P2WPKH, P2WSH, P2TR: the kinds of every deposit address handed out) of a
+   configured network survives encode -> DecodeAddress, for every program and human-readable part *)
+Theorem C17_segwit_address_round_trip (sha256d : bytes -> bytes) hrps net a :
+  segwit_addr_ok a -> Forall (fun x => (x < 256)%N) (addr_prog a) ->
+  hrp_ok (addr_hrp a) -> (2 <= length (addr_hrp a) <= 20)%nat -> in_list (addr_hrp a) hrps = true ->
+  decode_address sha256d hrps net (encode_address sha256d a) = Ok a.
+Proof. exact (segwit_address_round_trip sha256d hrps net a). Qed.
+Print Assumptions C17_segwit_address_round_trip.
+
+(* non-vacuity: the theorem applies to a P2WSH address of every configured network prefix *)
+Example C17_round_trip_example :
+  forall sha256d, decode_address sha256d [[98; 99]; [116; 98]; [98; 99; 114; 116]] (mkNet [98; 99] 0 5)
+     (encode_address sha256d (AWitnessScriptHash (repeat 7%N 32) [98; 99])) = Ok (AWitnessScriptHash (repeat 7%N 32) [98; 99]).
+Proof.
+  intros sha256d. apply segwit_address_round_trip.
+  - reflexivity.
+  - apply Forall_forall. intros x Hx. apply repeat_spec in Hx. subst. reflexivity.
+  - split; [discriminate|]. repeat constructor.
+  - cbn. lia.
+  - reflexivity.
+Qed.
